@@ -68,7 +68,7 @@ def main() -> None:
             % (
                 name,
                 ", ".join(f.replace("src/haiway/", "") for f in files),
-                "yes" if valid else "NO (obsolete on current HEAD)" if meta["demo_exit_with_change"] == 0 else "no",
+                "yes" if valid else ("NO (patch no longer applies to HEAD after a later repair)" if res.get("applies") is False else "NO (neutralised by a later repair)" if meta["demo_exit_with_change"] == 0 else "no"),
                 "**%s**" % prop if prop in catching else "—",
                 ", ".join(c for c in catching if c != prop) or "—",
             )
